@@ -64,6 +64,18 @@ func opCover(pk *packages.Package, fd *ast.FuncDecl) (tracked []string, skipped 
 	if node == nil {
 		return nil, nil
 	}
+	// cl passes the node itself to gogen only as the source position of the generated code: that hands no operand on
+	return opCoverBody(pk, fd.Body, node, nodeT, false, func(fn *types.Func) bool {
+		// e.g. the callee expression handed to an error-message helper is not being lowered
+		return hasAnyPrefix(fn.Name(), "compile", "to", "load")
+	}, "handleErr", "handleErrorf")
+}
+
+// opCoverBody is the analysis proper: body is a function body or the body of one case of a type switch, node the
+// variable holding the syntax node, lowers says which callees of the package count as handing the operand on, and
+// errCalls name the package's error reporters (a path through one rejects the program).
+func opCoverBody(pk *packages.Package, body *ast.BlockStmt, node types.Object, nodeT *types.Struct, wholeNode bool, lowers func(*types.Func) bool, errCalls ...string) (tracked []string, skipped []opCoverFinding) {
+	info := pk.TypesInfo
 	optional := map[string]bool{}
 	for i := 0; i < nodeT.NumFields(); i++ {
 		f := nodeT.Field(i)
@@ -92,7 +104,7 @@ func opCover(pk *packages.Package, fd *ast.FuncDecl) (tracked []string, skipped 
 		}
 		return sel.Sel.Name
 	}
-	ast.Inspect(fd.Body, func(n ast.Node) bool {
+	ast.Inspect(body, func(n ast.Node) bool {
 		if as, ok := n.(*ast.AssignStmt); ok && as.Tok == token.DEFINE && len(as.Lhs) == 1 && len(as.Rhs) == 1 {
 			if id, ok := as.Lhs[0].(*ast.Ident); ok {
 				if f := fieldOf(as.Rhs[0]); f != "" && info.Defs[id] != nil {
@@ -122,11 +134,16 @@ func opCover(pk *packages.Package, fd *ast.FuncDecl) (tracked []string, skipped 
 				case *ast.Ident:
 					if f := fieldOf(x); f != "" {
 						out = append(out, f)
+					} else if wholeNode && info.Uses[x] == node {
+						out = append(out, "*") // the node itself is handed on (p.expr(x)): every operand goes with it
 					}
 				case *ast.SelectorExpr:
 					if f := fieldOf(x); f != "" {
 						out = append(out, f)
 						return false
+					}
+					if identObj(info, x.X) == node {
+						return false // another field or a method of the node: not the node itself
 					}
 				}
 				return true
@@ -137,18 +154,20 @@ func opCover(pk *packages.Package, fd *ast.FuncDecl) (tracked []string, skipped 
 	}
 	// tracked: the operands the routine itself hands to a lowering routine of this package on some path
 	used := map[string]bool{}
-	ast.Inspect(fd.Body, func(n ast.Node) bool {
+	ast.Inspect(body, func(n ast.Node) bool {
 		call, ok := n.(*ast.CallExpr)
 		if !ok {
 			return true
 		}
 		fn, ok := calleeObj(info, call).(*types.Func)
-		if !ok || fn.Pkg() != pk.Types || !hasAnyPrefix(fn.Name(), "compile", "to", "load") {
-			return true // e.g. the callee expression handed to an error-message helper is not being lowered
+		if !ok || fn.Pkg() != pk.Types || !lowers(fn) {
+			return true
 		}
 		for _, a := range call.Args {
 			for _, f := range mentions(a) {
-				used[f] = true
+				if f != "*" {
+					used[f] = true
+				}
 			}
 		}
 		return true
@@ -169,17 +188,21 @@ func opCover(pk *packages.Package, fd *ast.FuncDecl) (tracked []string, skipped 
 		kNil    = 2
 		kNonNil = 4
 	)
-	p := &flow.Problem{Body: fd.Body, Info: info}
+	p := &flow.Problem{Body: body, Info: info}
 	const kErr flow.State = 1 << 63 // the path reported a compile error (handleErr/handleErrorf): the program is rejected
 	p.Node = func(n ast.Node, st flow.State, record bool) flow.State {
 		for _, call := range flow.Calls(n) {
-			if fn, ok := calleeObj(info, call).(*types.Func); ok && fn.Pkg() == pk.Types && (fn.Name() == "handleErr" || fn.Name() == "handleErrorf") {
+			if fn, ok := calleeObj(info, call).(*types.Func); ok && fn.Pkg() == pk.Types && isOneOf(fn.Name(), errCalls) {
 				st |= kErr
 			}
 		}
 		for _, f := range mentions(n) {
 			if i, isTracked := idx[f]; isTracked {
 				st |= kUsed << i
+			} else if f == "*" {
+				for _, i := range idx {
+					st |= kUsed << i
+				}
 			}
 		}
 		return st
@@ -306,4 +329,88 @@ func hasAnyPrefix(s string, prefixes ...string) bool {
 		}
 	}
 	return false
+}
+
+func isOneOf(s string, list []string) bool {
+	for _, l := range list {
+		if s == l {
+			return true
+		}
+	}
+	return false
+}
+
+// opCoverCases applies the rule to every single-type case of every `switch x := n.(type)` over syntax nodes in the
+// package's functions selected by pick: the clause body is the routine, x the node. Keys are <func>:<NodeType>.<Field>.
+func opCoverCases(c *core.Check, pk *packages.Package, rule string, pick func(*ast.FuncDecl) bool, reviewed map[string]string, errCalls ...string) (clauses, operands int) {
+	info := pk.TypesInfo
+	seenReviewed := map[string]bool{}
+	for _, fd := range core.AllFuncDecls(pk) {
+		if fd.Body == nil || !pick(fd) {
+			continue
+		}
+		fname := core.FuncName(fd)
+		ast.Inspect(fd.Body, func(n ast.Node) bool {
+			ts, ok := n.(*ast.TypeSwitchStmt)
+			if !ok {
+				return true
+			}
+			if _, isAssign := ts.Assign.(*ast.AssignStmt); !isAssign {
+				return true
+			}
+			for _, s := range ts.Body.List {
+				cc := s.(*ast.CaseClause)
+				if len(cc.List) != 1 {
+					continue
+				}
+				obj := info.Implicits[cc]
+				if obj == nil {
+					continue
+				}
+				pt, ok := obj.Type().(*types.Pointer)
+				if !ok {
+					continue
+				}
+				nt := namedOf(pt.Elem())
+				if nt == nil || nt.Obj().Pkg() == nil || !strings.HasSuffix(nt.Obj().Pkg().Path(), "/ast") {
+					continue
+				}
+				st, ok := nt.Underlying().(*types.Struct)
+				if !ok {
+					continue
+				}
+				tracked, skipped := opCoverBody(pk, &ast.BlockStmt{Lbrace: cc.Colon, List: cc.Body, Rbrace: cc.End()}, obj, st, true, func(*types.Func) bool { return true }, errCalls...)
+				if len(tracked) == 0 {
+					continue
+				}
+				clauses++
+				isSkipped := map[string]token.Pos{}
+				for _, s := range skipped {
+					isSkipped[s.Field] = s.Pos
+				}
+				for _, f := range tracked {
+					operands++
+					key := fname + ":" + nt.Obj().Name() + "." + f
+					pos, bad := isSkipped[f]
+					if why, ok := reviewed[key]; ok {
+						seenReviewed[key] = true
+						if bad {
+							c.Note(rule, key, pos, "reviewed: "+why)
+						} else {
+							c.Bad(rule, key, cc.Pos(), "listed as a reviewed exception but the case now covers the operand on every path: remove the stale entry")
+						}
+						continue
+					}
+					at := cc.Pos()
+					if bad {
+						at = pos
+					}
+					c.Decide(!bad, rule, key, at, "on every path through the case the operand "+f+" is handed on or known to be nil",
+						fname+", case *ast."+nt.Obj().Name()+": the path leaving at "+c.Rel(pos)+" may carry a "+f+" but never hands it on (other paths of the same case do): that part of the tree is silently dropped")
+				}
+			}
+			return true
+		})
+	}
+	return
 }
